@@ -1,6 +1,7 @@
 """Shape normalisers shared by several rules: binder chains over the pairs structure, scatter (group-by) summaries,
 selection comprehensions.  All work on terms/effects produced by absint, independent of whether the source used
 loops, comprehensions, generators, helper functions or lambdas."""
+import itertools
 from .terms import *
 from .absint import iter_effects, collect_acc
 from . import lp
@@ -111,7 +112,71 @@ def extract_scatter(effs, target):
         for op, idx, val, ch in v[2]:
             entries.append((op, idx, val, ch, st))
         return Scatter(n, entries, st, problems)
+    tr = transpose_scatter(v)
+    if tr is not None:
+        return Scatter(None, [tr + (st,)], st, problems)
+    ov = dict_overwrite(v)
+    if ov is not None:
+        problems.append(('overwrite', ov, st))
+        return Scatter(None, [], st, problems)
     raise Unknown('value assigned to %s is not a recognised group-by: %s' % (show(target), show(v)[:100]))
+
+
+_tr_ids = itertools.count(10 ** 6)
+
+
+def transpose_scatter(v):
+    """[[x for x in col if x is not None] for col in zip_longest(*M)]  (the columns of M)  is the scatter of every element
+    of every row of M under its POSITION in the row"""
+    if not (v[0] == 'comp' and len(v[1]) == 1 and v[1][0][1] == TRUE):
+        return None
+    col = v[1][0][0]
+    d = col[3]
+    if not (d[0] == 'call' and d[1] in (S('zip_longest'), A(S('itertools'), 'zip_longest'), S('zip')) and len(d[2]) == 1 and d[2][0][0] == 'starred'):
+        return None
+    M = d[2][0][1]
+    inner = v[2]
+    if inner[0] == 'call' and inner[1] == S('list') and len(inner[2]) == 1:
+        inner = inner[2][0]
+    if inner == col:
+        pass
+    elif inner[0] == 'comp' and len(inner[1]) == 1 and inner[1][0][0][3] == col and inner[2] == inner[1][0][0] and (inner[1][0][1] == TRUE or inner[1][0][1] in notnone_forms(inner[1][0][0])):
+        pass
+    else:
+        return None
+    row = ('bvar', next(_tr_ids), 'row', M)
+    el = ('bvar', next(_tr_ids), 'pair', row)
+    return ('appendidx', ('indexof', el), el, ((row, TRUE), (el, TRUE)))
+
+
+GROUPED_BY = {'project_lists': 'project_index', 'lecturer_lists': 'lecturer_index'}
+
+
+def dict_overwrite(v):
+    """[D.get(i, []) for i in range(N)] with D = {key(x): <list> for x in X}: a dict comprehension ASSIGNS one list per key;
+    when different x can share a key the earlier lists are lost.  Returns a description when that is certain: x ranges over
+    all pairs, or over groups formed by a different attribute than the key."""
+    if not (v[0] == 'comp' and len(v[1]) == 1 and v[1][0][1] == TRUE):
+        return None
+    i = v[1][0][0]
+    val = v[2]
+    D = None
+    if val[0] == 'call' and val[1][0] == 'attr' and val[1][2] == 'get' and len(val[2]) == 2 and val[2][0] == i and val[2][1] == ('list', ()):
+        D = val[1][1]
+    if val[0] == 'ite' and val[1] == CMP('In', i, val[2][1] if val[2][0] == 'idx' else NONE) and val[2][0] == 'idx' and val[2][2] == i and val[3] == ('list', ()):
+        D = val[2][1]
+    if D is None or D[0] != 'dictcomp':
+        return None
+    chain, key = D[1], D[2]
+    last = chain[-1][0]
+    if key == last:
+        return None
+    dom = last[3]
+    if all_pairs_chain(chain) is not None and key[0] == 'attr' and key[1] == last:
+        return 'dictionary {%s: ...} over all pairs keeps one list per key: pairs sharing a key overwrite each other' % show(key).replace(show(last), 'pair')
+    if dom[0] == 'attr' and dom[2] in GROUPED_BY and key[0] == 'attr' and key[2] != GROUPED_BY[dom[2]] and key[1] in (I(last, C(0)), I(last, C(-1))):
+        return 'dictionary keyed by %s over the groups of %s (formed by %s): groups sharing a key overwrite each other' % (key[2], dom[2], GROUPED_BY[dom[2]])
+    return None
 
 
 def is_max_fold(t, value_attr, init=0):
